@@ -249,9 +249,9 @@ CLAIMED["C04"] = dict(
          "verdict never returns to True (c04_run_monotone, c04_loop_never_writes); the manifest's all_valid is the conjunction of the "
          "members' verdicts (c04_aggregate). Tie: suite `interp` with conditional fail()/fail_and_stop()/failed()/valid() and "
          "error-provoking components under all policies, and suite `validity` for results_manager.is_valid and the manifest of real "
-         "named-paths runs. Source tie (T): `Equality._do_when` (the `->` operator) is translated from /repo's working tree on every run and proved to compute `Model.WhenTop.whenDo` — the right-hand side runs exactly when the left-hand side answers True, in the state the left-hand side left, and is not called otherwise — for every pair of sides that keep the stated contract; the interpreter model's `evalWhen` is an instance (Props/WhenTie).",
+         "named-paths runs. Source tie (T): `Equality._do_when` (the `->` operator) is translated from /repo's working tree on every run and proved to compute `Model.WhenTop.whenDo` — the right-hand side runs exactly when the left-hand side answers True, in the state the left-hand side left, and is not called otherwise — for every pair of sides that keep the stated contract; the interpreter model's `evalWhen` is an instance (Props/WhenTie). `Fail._decide_match` is translated as well: fail() always clears the verdict (Props/ControlTie.c04_fail_source).",
     note=INTERP_NOTE + " Known finding result-valid-needs-start (no-run member) is listed in known-findings.txt.",
-    technique="Lean 4 proof (effect-list invariant, monotonicity by induction over records) + source translator with bridging theorem (_do_when) + correspondence + oracle",
+    technique="Lean 4 proof (effect-list invariant, monotonicity by induction over records) + source translator with bridging theorems (_do_when, Fail._decide_match) + correspondence + oracle",
     design="6/C04",
 )
 CLAIMED["C13"] = dict(
@@ -262,9 +262,9 @@ CLAIMED["C13"] = dict(
          "and skip is cleared for the next line (c13_stop_cut, c13_skip_cut). Tie: suite `interp` with conditional "
          "stop/skip/advance/last among side-effecting components over files with interior/trailing blanks and scan windows, compared "
          "with the Lean model and judged by the reference semantics (absence of later effects); suite `lookahead` judges stop/skip beside "
-         "an onmatch look-ahead directly. Source tie (T): `CsvPath._consider_line` (with `raise_match_count_if`, `stop`, `LineMonitor.is_last_line_and_blank`) is translated from /repo's working tree to Lean on every run (heap mode, Generated/CoreConsiderLine.lean) and proved to compute the run-loop model's `considerLine` for every matcher that keeps the stated contract (Props/RunTie.consider_line_source_is_model). `Matcher.matches` — the loop over the match components, the stop and skip cuts, the AND/OR fold of the votes — is translated too (Generated/CoreMatches.lean; `for` loops over object lists since round 7) and proved to compute the abstract top level `Model.MatchTop.matchLine` for every number of components and every component that keeps the stated contract (no onmatch look-ahead); the interpreter model's top level is an instance of the same definition (Props/MatchTie).",
+         "an onmatch look-ahead directly. Source tie (T): `CsvPath._consider_line` (with `raise_match_count_if`, `stop`, `LineMonitor.is_last_line_and_blank`) is translated from /repo's working tree to Lean on every run (heap mode, Generated/CoreConsiderLine.lean) and proved to compute the run-loop model's `considerLine` for every matcher that keeps the stated contract (Props/RunTie.consider_line_source_is_model). `Matcher.matches` — the loop over the match components, the stop and skip cuts, the AND/OR fold of the votes — is translated too (Generated/CoreMatches.lean; `for` loops over object lists since round 7) and proved to compute the abstract top level `Model.MatchTop.matchLine` for every number of components and every component that keeps the stated contract (no onmatch look-ahead); the interpreter model's top level is an instance of the same definition (Props/MatchTie). The control functions themselves — `Stop._decide_match` with `Stopper._stop_me` and `CsvPath.stop`, `Skip._decide_match` with `Skipper._skip_me`, `Fail._decide_match` — are translated too and proved to compute `Model.ControlTop.stopFn`/`skipFn`/`failFn` (stop(cond) stops exactly when the condition answers True, fail_and_stop fails exactly when it stops, fail() always clears the verdict) for every condition that keeps the stated contract; the interpreter model's cases are instances (Props/ControlTie).",
     note=INTERP_NOTE,
-    technique="Lean 4 proof (case analysis of the run-loop step and the component loop) + source translator with bridging theorems (_consider_line, Matcher.matches incl. its loop) + correspondence + oracle",
+    technique="Lean 4 proof (case analysis of the run-loop step and the component loop) + source translator with bridging theorems (_consider_line, Matcher.matches incl. its loop, stop/skip/fail functions) + correspondence + oracle",
     design="6/C13",
 )
 
